@@ -25,7 +25,7 @@ func init() {
 			"on error / unknown-dedicated results.",
 		NotCovered: "parsing of identifiers from TLS server names, URL paths, userinfo and EDNS options (string work); " +
 			"the profile database's own lookups (C14); the password-hash comparison itself.",
-		Rules: map[string]string{"C03-R21": "an identifier taken from a request (EDNS option, DoH path, TLS server name) reaches its validator whole: it is not first copied into a fixed-size buffer, which would cut a longer value down to one that passes the length check and names another device", "C03-R19": "every Unpack on the receive paths is bounded by the bytes read for this message (shared with C06-R1)", "C03-R20": "backendpb.dohPasswordToInternal: AllowAuthenticator only for an absent hash; a present hash, even an empty one, becomes a bcrypt authenticator", "C03-R18": "Default.Refresh stores the backend's sync time with the file cache; a restart then fetches every deletion and detachment made since (table shared with C14-R8)", "C03-R17": "every backend update that converts reaches the profile database, so deletions and detached devices take effect (shared with C14-R16)", "C03-R16": "CreateAutoDevice asks the storage only for an existing profile with automatic devices enabled", "C03-RC": "class rules (error chains, shadowed results, character classes, crossed arguments, pool constructors, array pools, loop completeness, loop-carried buffers, replacing setters, complete clones, Grow arithmetic, pooled-buffer escape, sorted searches, fresh decode targets, per-iteration objects, whole-message copies, codec guards) over the packages this property rests on", "C03-R15": "matchDomain: lower-cased name, the library's immediate-subdomain test against every device domain, first match wins", "C03-R14": "auth settings are dropped by the file-cache codec only when absent or disabled; setProfiles stores deleted profiles over the live record (shared rules)", "C03-R13": "per-element objects built in conversion loops (server groups, devices) take no slice accumulated over earlier elements",
+		Rules: map[string]string{"C03-R22": "the identifier validators: ValidateInclusion rejects exactly the lengths outside [min, max]; NewDeviceID accepts a string only after the length check against (MaxDeviceIDLen, MinDeviceIDLen) and the host-name-label check, and returns that very string", "C03-R21": "an identifier taken from a request (EDNS option, DoH path, TLS server name) reaches its validator whole: it is not first copied into a fixed-size buffer, which would cut a longer value down to one that passes the length check and names another device", "C03-R19": "every Unpack on the receive paths is bounded by the bytes read for this message (shared with C06-R1)", "C03-R20": "backendpb.dohPasswordToInternal: AllowAuthenticator only for an absent hash; a present hash, even an empty one, becomes a bcrypt authenticator", "C03-R18": "Default.Refresh stores the backend's sync time with the file cache; a restart then fetches every deletion and detachment made since (table shared with C14-R8)", "C03-R17": "every backend update that converts reaches the profile database, so deletions and detached devices take effect (shared with C14-R16)", "C03-R16": "CreateAutoDevice asks the storage only for an existing profile with automatic devices enabled", "C03-RC": "class rules (error chains, shadowed results, character classes, crossed arguments, pool constructors, array pools, loop completeness, loop-carried buffers, replacing setters, complete clones, Grow arithmetic, pooled-buffer escape, sorted searches, fresh decode targets, per-iteration objects, whole-message copies, codec guards) over the packages this property rests on", "C03-R15": "matchDomain: lower-cased name, the library's immediate-subdomain test against every device domain, first match wins", "C03-R14": "auth settings are dropped by the file-cache codec only when absent or disabled; setProfiles stores deleted profiles over the live record (shared rules)", "C03-R13": "per-element objects built in conversion loops (server groups, devices) take no slice accumulated over earlier elements",
 			"C03-R1":  "decision tree of Find equals the reference (channel precedence, deleted profile, authentication table)",
 			"C03-R2":  "supportsDeviceID table",
 			"C03-R3":  "who may construct *agd.DeviceResultOK",
@@ -46,6 +46,69 @@ func init() {
 const dfPkg = "dnssvc/internal/devicefinder."
 
 func runC03(c *an.Ctx) {
+	// ---- R22: tables of the identifier validators
+	c.Floor("C03-R22", 2)
+	decide(c, "C03-R22", "agd.ValidateInclusion", an.DecideCfg{
+		Dom: an.Domain{"p0": an.Ints(0, 1, 4, 8, 9), "p1": an.Ints(8), "p2": an.Ints(1)},
+		OnCall: func(it *an.Interp, name string, args []an.AV) (an.AV, bool) {
+			if name == "fmt.Errorf" {
+				return an.NonNil("rangeErr"), true
+			}
+			return an.AV{}, false
+		},
+		Expect: func(f an.Features, o an.AOutcome) string {
+			n, max, min := f.I("p0"), f.I("p1"), f.I("p2")
+			bad := n > max || n < min
+			if len(o.Ret) == 1 && (o.Ret[0].Kind != an.KNil) == bad {
+				return ""
+			}
+			return fmt.Sprintf("error=%v for length %d in [%d, %d]", bad, n, min, max)
+		},
+	})
+	decide(c, "C03-R22", "agd.NewDeviceID", an.DecideCfg{
+		Dom:    an.Domain{"lenerr": an.Bools, "labelerr": an.Bools},
+		Inline: func(f *ssa.Function) bool { return strings.HasPrefix(an.FnKey(f), "agd.NewDeviceID$") },
+		OnCall: func(it *an.Interp, name string, args []an.AV) (an.AV, bool) {
+			switch {
+			case name == "agd.ValidateInclusion":
+				maxLen, minLen := fmt.Sprint(agdInt(c, "MaxDeviceIDLen")), fmt.Sprint(agdInt(c, "MinDeviceIDLen"))
+				if len(args) != 4 || args[0].String() != "len(p0)" || args[1].String() != maxLen || args[2].String() != minLen {
+					return an.Sym("length check with other bounds"), true
+				}
+				if it.Feature("lenerr").IsTrue() {
+					return an.NonNil("lenErr"), true
+				}
+				return an.Nil(), true
+			case strings.HasSuffix(name, "netutil.ValidateHostnameLabel"):
+				if len(args) != 1 || args[0].String() != "p0" {
+					return an.Sym("label check of another string"), true
+				}
+				if it.Feature("labelerr").IsTrue() {
+					return an.NonNil("labelErr"), true
+				}
+				return an.Nil(), true
+			case strings.HasSuffix(name, "errors.Unwrap"), name == "fmt.Errorf":
+				return an.NonNil("wrapped"), true
+			}
+			return an.AV{}, false
+		},
+		Expect: func(f an.Features, o an.AOutcome) string {
+			if len(o.Ret) != 2 {
+				return "an identifier and an error"
+			}
+			bad := f.B("lenerr") || !f.B("lenerr") && f.B("labelerr")
+			if bad {
+				if o.Ret[1].Kind != an.KNil {
+					return ""
+				}
+				return "an error for a string of the wrong length or one that is not a host-name label"
+			}
+			if o.Ret[1].Kind == an.KNil && strings.Contains(o.Ret[0].String(), "p0") {
+				return ""
+			}
+			return "the string itself as the identifier and no error; got " + o.RetString()
+		},
+	})
 	// ---- R21: identifiers are validated whole
 	if n := c03ValidatedWhole(c, "C03-R21"); n < 3 {
 		c.Und("C03-R21", "identifier validators of the device finder", token.NoPos, "only %d validator calls found in package devicefinder", n)
@@ -65,7 +128,9 @@ func runC03(c *an.Ctx) {
 	// ---- R18: the file cache is stamped with the backend's sync point, so that a restarted process asks for every
 	// change since that snapshot (shared with the Refresh table of C14-R8)
 	c.Floor("C03-R18", 1)
-	c.Borrow("C03-R18", runC14, func(o an.Obligation) bool { return o.Rule == "C14-R8" && strings.Contains(o.Key, "profiledb.(*Default).Refresh") })
+	c.Borrow("C03-R18", runC14, func(o an.Obligation) bool {
+		return o.Rule == "C14-R8" && strings.Contains(o.Key, "profiledb.(*Default).Refresh")
+	})
 	c03MatchDomain(c)
 	// ---- R14: authentication settings survive the file cache (nil only when absent or disabled); a deleted profile
 	// replaces the live record (shared with C10-R10 / C14-R8)
@@ -1038,13 +1103,12 @@ func c03MatchDomain(c *an.Ctx) {
 	})
 }
 
-
 // c03CreateAutoDevice: an automatic device is created (the storage is asked)
 // only for a profile that exists and has the feature enabled.
 func c03CreateAutoDevice(c *an.Ctx) {
 	c.Floor("C03-R16", 1)
 	decide(c, "C03-R16", "profiledb.(*Default).CreateAutoDevice", an.DecideCfg{
-		Dom: an.Domain{"p0.profiles[p2]#ok": an.Bools, "p0.profiles[p2]": {an.NonNil("prof")}, "prof.AutoDevicesEnabled": an.Bools, "storerr": an.Bools},
+		Dom:    an.Domain{"p0.profiles[p2]#ok": an.Bools, "p0.profiles[p2]": {an.NonNil("prof")}, "prof.AutoDevicesEnabled": an.Bools, "storerr": an.Bools},
 		Inline: func(f *ssa.Function) bool { return strings.Contains(an.FnKey(f), "CreateAutoDevice$") },
 		OnCall: func(it *an.Interp, name string, args []an.AV) (an.AV, bool) {
 			switch {
@@ -1159,4 +1223,14 @@ func c03ValidatedWhole(c *an.Ctx, rule string) (sites int) {
 		}
 	}
 	return sites
+}
+
+// agdInt returns the value of an integer constant of package agd (-1 if absent).
+func agdInt(c *an.Ctx, name string) int64 {
+	if pkg := c.Prog.SSA.ImportedPackage("github.com/AdguardTeam/AdGuardDNS/internal/agd"); pkg != nil {
+		if k, ok := pkg.Members[name].(*ssa.NamedConst); ok {
+			return k.Value.Int64()
+		}
+	}
+	return -1
 }
